@@ -46,19 +46,26 @@ impl<'a> Refs<'a> {
         self.cache.insert(key, r.clone());
         r
     }
-    /// the reference to compare `d` with, and whether the audio streams are comparable
-    fn for_driving(&mut self, d: &Driving) -> (std::rc::Rc<RunOut>, bool) {
+    /// the reference for the state (always: one frame per call, drained every frame, default mixer) and, if one of
+    /// the reference drivings drains at exactly the same boundaries with the same mixer, the reference for the audio
+    fn for_driving(&mut self, d: &Driving) -> (std::rc::Rc<RunOut>, Option<std::rc::Rc<RunOut>>) {
         let frames = d.frames();
+        let base = self.get(frames, Drain::Every, 0);
         if let Some((ds, mix)) = d.audio_key() {
             for pol in [Drain::Every, Drain::Every3, Drain::Never] {
                 let mut rd = Driving::reference(frames, pol);
                 rd.mix = mix;
+                rd.seed = d.seed;
+                if rd == *d {
+                    // the driving *is* this reference driving: nothing to compare its audio with
+                    return (base, None);
+                }
                 if rd.drain_set() == ds {
-                    return (self.get(frames, pol, mix), true);
+                    return (base, Some(self.get(frames, pol, mix)));
                 }
             }
         }
-        (self.get(frames, Drain::Every, 0), false)
+        (base, None)
     }
 }
 
@@ -98,7 +105,12 @@ fn compare(reference: &RunOut, x: &RunOut, audio: bool) -> Option<Diff> {
         }
     }
     if x.error != reference.error {
-        return Some(Diff { k: x.obs.len(), component: "error", implementation: format!("{:?}", x.error), expected: format!("{:?}", reference.error) });
+        return Some(Diff {
+            k: x.obs.len(),
+            component: "error",
+            implementation: format!("{:?} {}", x.error, x.api.first().cloned().unwrap_or_default()),
+            expected: format!("{:?}", reference.error),
+        });
     }
     if !x.api.is_empty() {
         return Some(Diff { k: x.obs.len(), component: "api", implementation: x.api[0].clone(), expected: "stop reasons, frame counter and duration as documented".into() });
@@ -108,6 +120,22 @@ fn compare(reference: &RunOut, x: &RunOut, audio: bool) -> Option<Diff> {
     }
     if x.obs.last().map(|o| o.k) == reference.obs.last().map(|o| o.k) && x.final_sna != reference.final_sna {
         return Some(Diff { k: x.obs.len(), component: "final-sna", implementation: format!("{:x}", x.final_sna), expected: format!("{:x}", reference.final_sna) });
+    }
+    None
+}
+
+fn compare_audio(reference: &RunOut, x: &RunOut) -> Option<Diff> {
+    for o in &x.obs {
+        if let Some(r) = reference.obs.iter().find(|r| r.k == o.k) {
+            if (o.audio, o.audio_n) != (r.audio, r.audio_n) {
+                return Some(Diff {
+                    k: o.k,
+                    component: "audio",
+                    implementation: format!("{} samples, hash {:x} after {} frames", o.audio_n, o.audio, o.k),
+                    expected: format!("{} samples, hash {:x} after {} frames", r.audio_n, r.audio, o.k),
+                });
+            }
+        }
     }
     None
 }
@@ -123,6 +151,10 @@ fn truncate(d: &Driving, k: usize) -> Driving {
 fn simpler(d: &Driving) -> Vec<Driving> {
     let mut v = vec![];
     let f = d.frames();
+    if f > 1 {
+        v.push(truncate(d, f / 2));
+        v.push(truncate(d, f - 1));
+    }
     let mut push = |m: &dyn Fn(&mut Driving)| {
         let mut c = d.clone();
         m(&mut c);
@@ -162,8 +194,21 @@ fn simpler(d: &Driving) -> Vec<Driving> {
 
 fn check_pair(scn: &Scenario, refs: &mut Refs, d: &Driving) -> (Option<Diff>, RunOut, bool) {
     let x = run_driving(scn, d);
-    let (r, audio) = refs.for_driving(d);
-    (compare(&r, &x, audio), x, audio)
+    let (base, aref) = refs.for_driving(d);
+    let audio = aref.is_some();
+    let mut diff = compare(&base, &x, false);
+    if diff.is_none() {
+        if let Some(ar) = &aref {
+            diff = compare_audio(ar, &x);
+        }
+    }
+    if let Some(df) = diff.as_mut() {
+        if df.component == "error" || df.component == "api" {
+            // the failing call is the one heading for the first boundary that was not observed
+            df.k = d.part.get(x.obs.len()).copied().unwrap_or(d.frames());
+        }
+    }
+    (diff, x, audio)
 }
 
 fn report_violation(rep: &mut Report, scn: &Scenario, d: &Driving, diff: &Diff, refname: &str) {
@@ -188,25 +233,21 @@ fn report_violation(rep: &mut Report, scn: &Scenario, d: &Driving, diff: &Diff, 
 fn shrink(scn: &Scenario, refs: &mut Refs, d: Driving, diff: Diff) -> (Driving, Diff) {
     let mut best = d;
     let mut bdiff = diff;
-    let mut budget = 40;
-    // first: no more frames than needed
-    if bdiff.k >= 1 && bdiff.k < best.frames() {
-        let t = truncate(&best, bdiff.k);
-        if let (Some(df), _, _) = check_pair(scn, refs, &t) {
-            best = t;
-            bdiff = df;
-        }
-        budget -= 1;
-    }
+    let mut budget = 30;
     loop {
         let mut progressed = false;
-        for c in simpler(&best) {
+        // no more frames than needed (every candidate is re-run on the real code)
+        let mut cands: Vec<Driving> = vec![];
+        if bdiff.k >= 1 && bdiff.k < best.frames() {
+            cands.push(truncate(&best, bdiff.k));
+        }
+        cands.extend(simpler(&best));
+        for c in cands {
             if budget == 0 {
                 return (best, bdiff);
             }
             budget -= 1;
             if let (Some(df), _, _) = check_pair(scn, refs, &c) {
-                let c = if df.k >= 1 && df.k < c.frames() { truncate(&c, df.k) } else { c };
                 best = c;
                 bdiff = df;
                 progressed = true;
@@ -355,6 +396,44 @@ fn gen_driving(scn: &Scenario, frames: usize, i: usize, r: &mut Rng) -> Driving 
     d
 }
 
+/// the reference driving once more, on another thread with a perturbed heap; any difference is a hidden input
+fn rerun_check(scn: &Scenario, frames: usize, first: Option<&RunOut>) -> Option<Diff> {
+    let d = Driving::reference(frames, Drain::Every);
+    let own;
+    let first = match first {
+        Some(f) => f,
+        None => {
+            own = run_driving(scn, &d);
+            &own
+        }
+    };
+    let scn2 = scn.clone();
+    let again = std::thread::spawn(move || {
+        let junk: Vec<Vec<u8>> = (0..37).map(|i| vec![i as u8; 1000 + 4099 * i]).collect();
+        let r = run_driving(&scn2, &d);
+        drop(junk);
+        r
+    })
+    .join()
+    .unwrap_or_default();
+    compare(first, &again, true)
+}
+
+fn report_rerun(rep: &mut Report, scn: &Scenario, frames: usize, diff: &Diff) {
+    rep.violation(Violation {
+        kind: Kind::SpecViolated,
+        key: format!("C16/{}/fc1-vs-fc1-rerun/{}", scn.name, diff.component),
+        what: format!(
+            "scenario {}: two runs of the same driving (one frame per call, {} frames; second run on another thread) differ in '{}' after {} frames: the emulation has an input besides its state and the host inputs",
+            scn.name, frames, diff.component, diff.k
+        ),
+        correspondence: "determinism (no hidden inputs), checked by running twice".into(),
+        case: J::obj(vec![("text", J::s(format!("rerun scn={} frames={}", scn.name, frames)))]),
+        implementation: diff.implementation.clone(),
+        expected: diff.expected.clone(),
+    });
+}
+
 fn metamorphic(o: &Opts, rep: &mut Report, rng: &mut Rng) {
     let scns = scenarios();
     let mut compared_audio = 0u64;
@@ -364,28 +443,21 @@ fn metamorphic(o: &Opts, rep: &mut Report, rng: &mut Rng) {
         let mut refs = Refs { scn, cache: HashMap::new(), runs: 0 };
         let base = refs.get(frames, Drain::Every, 0);
         let t_ref = t0.elapsed().as_secs_f64();
-        if let Some(e) = &base.error {
+        if let (Some(e), true) = (&base.error, scn.name != "tape-trunc") {
             rep.notes.push(format!("scenario {}: reference run ended with {}", scn.name, e));
         }
         rep.count("scenario_frames", format!("{}={}", scn.name, frames));
         // pure determinism: the same driving again, on another thread, with a perturbed heap
-        {
-            let scn2 = scn.clone();
-            let d = Driving::reference(frames, Drain::Every);
-            let d2 = d.clone();
-            let again = std::thread::spawn(move || {
-                let junk: Vec<Vec<u8>> = (0..37).map(|i| vec![i as u8; 1000 + 4099 * i]).collect();
-                let r = run_driving(&scn2, &d2);
-                drop(junk);
-                r
-            })
-            .join()
-            .unwrap_or_default();
-            rep.eval();
-            rep.class(format!("{}/fc1-vs-fc1(second run, other thread)", scn.name));
-            rep.count("pairs", format!("{}/rerun", scn.name));
-            if let Some(df) = compare(&base, &again, true) {
-                report_violation(rep, scn, &d, &df, "fc1-rerun");
+        rep.eval();
+        rep.class(format!("{}/fc1-vs-fc1(second run, other thread)", scn.name));
+        rep.count("pairs", format!("{}/rerun", scn.name));
+        if let Some(df) = rerun_check(scn, frames, Some(&base)) {
+            // as few frames as needed
+            let k = df.k.max(1).min(frames);
+            let df2 = if k < frames { rerun_check(scn, k, None) } else { None };
+            match df2 {
+                Some(d2) => report_rerun(rep, scn, k, &d2),
+                None => report_rerun(rep, scn, frames, &df),
             }
         }
         let n = if o.thorough() { scn.weight as u64 * 6 } else { scn.weight as u64 };
@@ -420,18 +492,25 @@ fn metamorphic(o: &Opts, rep: &mut Report, rng: &mut Rng) {
                 ]));
             }
             if let Some(df) = diff {
-                let (sd, sdf) = shrink(scn, &mut refs, d, df);
-                report_violation(rep, scn, &sd, &sdf, "fc1");
+                let key = format!("C16/{}/fc1-vs-{}/{}", scn.name, d.class(), df.component);
+                if rep.has_key(&key) {
+                    rep.count("repeat_violations", key);
+                } else {
+                    let (sd, sdf) = shrink(scn, &mut refs, d, df);
+                    report_violation(rep, scn, &sd, &sdf, "fc1");
+                }
             }
         }
         // drain policy alone must not matter for the state
         for pol in [Drain::Every3, Drain::Never] {
-            let r = refs.get(frames, pol, 0);
+            let d = Driving::reference(frames, pol);
+            let (diff, _, _) = check_pair(scn, &mut refs, &d);
             rep.eval();
-            rep.class(format!("{}/fc1-vs-fc1+{:?}", scn.name, pol));
-            if let Some(df) = compare(&base, &r, false) {
-                let d = Driving::reference(frames, pol);
-                report_violation(rep, scn, &d, &df, "fc1");
+            rep.class(format!("{}/fc1-vs-{}", scn.name, d.class()));
+            rep.count("pairs", format!("{}/{}", scn.name, d.class()));
+            if let Some(df) = diff {
+                let (sd, sdf) = shrink(scn, &mut refs, d, df);
+                report_violation(rep, scn, &sd, &sdf, "fc1");
             }
         }
         rep.count_n("reference_runs", scn.name, refs.runs);
@@ -471,6 +550,79 @@ fn small_checks(o: &Opts, rep: &mut Report, rng: &mut Rng, model: &mut Model) {
     for _ in 0..o.n(1_500, 100_000) {
         let c = seek_gen(rng);
         seek_one(&c, rep, model);
+    }
+}
+
+/// loaders on damaged/odd files: every delivery must give the outcome and the (partially loaded) machine of the
+/// whole-buffer delivery. case text: `load m128=<0|1> kind=<0 sna|1 scr> cut=<len> deliv=<...>`
+fn loader_files(m128: bool, kind: u8) -> Vec<u8> {
+    let (code, _) = diag_program();
+    match (kind, m128) {
+        (0, false) => sna48(&code, 0x8000, 0x8000, 0xBD00, 0x5C3A, 21),
+        (0, true) => sna128(&code, 0x8000, 0x8000, 0xBD00, 0x5C3A, 23),
+        _ => Rng::new(77).bytes(6912),
+    }
+}
+
+fn loader_one(m128: bool, kind: u8, cut: usize, deliv: &Deliv, rep: &mut Report) {
+    let full = loader_files(m128, kind);
+    let mut file = full.clone();
+    if cut <= full.len() {
+        file.truncate(cut);
+    } else {
+        file.resize(cut, 0x5A);
+    }
+    rep.eval();
+    let base = load_only(m128, kind, &file, &Deliv::Whole);
+    let x = load_only(m128, kind, &file, deliv);
+    let class = format!(
+        "load/{}{}/{}/{}",
+        if kind == 0 { "sna" } else { "scr" },
+        if m128 { "128" } else { "48" },
+        if cut == full.len() { "intact" } else if cut < full.len() { "truncated" } else { "oversize" },
+        deliv.class()
+    );
+    rep.class(class.clone());
+    rep.count("loaders", class.trim_start_matches("load/").to_string());
+    if let (Ok(b), Ok(xx)) = (&base, &x) {
+        rep.count("loader_outcomes", b.0.clone());
+        if b != xx {
+            rep.violation(Violation {
+                kind: Kind::SpecViolated,
+                key: format!("C16/load/{}/{}", if kind == 0 { "sna" } else { "scr" }, deliv.class()),
+                what: "a loader gives a different outcome or leaves a different machine when the same file bytes arrive through another asset".into(),
+                correspondence: "loader_chunking_independent on the real loaders".into(),
+                case: J::obj(vec![("text", J::s(format!("load m128={} kind={} cut={} deliv={}", m128 as u8, kind, cut, deliv.text())))]),
+                implementation: format!("{} state {:x}", xx.0, xx.1),
+                expected: format!("{} state {:x}", b.0, b.1),
+            });
+        }
+    } else {
+        rep.notes.push(format!("loader check could not build its asset: {:?} {:?}", base.err(), x.err()));
+    }
+}
+
+fn loader_checks(o: &Opts, rep: &mut Report, rng: &mut Rng) {
+    for _ in 0..o.n(60, 3000) {
+        let m128 = rng.bool();
+        let kind = if rng.chance(1, 4) { 1 } else { 0 };
+        let len = loader_files(m128, kind).len();
+        let cut = match rng.below(5) {
+            0 => len,
+            1 => len + 1 + rng.below(40) as usize,
+            // a truncated 128K image must still be longer than a 48K image (otherwise it *is* a 48K image)
+            _ if kind == 0 && m128 => 49180 + rng.below((len - 49180) as u64) as usize,
+            _ => rng.below(len as u64) as usize,
+        };
+        let deliv = match rng.below(6) {
+            0 => Deliv::VWhole,
+            1 => Deliv::Short { k: 1, z: rng.bool(), seed: rng.next() >> 40 },
+            2 => Deliv::Short { k: rng.range(2, 300) as usize, z: rng.bool(), seed: rng.next() >> 40 },
+            3 => Deliv::Short { k: rng.range(300, 30000) as usize, z: rng.bool(), seed: rng.next() >> 40 },
+            4 => Deliv::Gzip,
+            _ => Deliv::File,
+        };
+        loader_one(m128, kind, cut, &deliv, rep);
     }
 }
 
@@ -632,6 +784,46 @@ fn replay(text: &str, rep: &mut Report, model: &mut Model) {
         if let Some(df) = diff {
             report_violation(rep, scn, &d, &df, "fc1");
         }
+    } else if text.starts_with("rerun ") {
+        let mut name = "";
+        let mut frames = 0usize;
+        for tok in text.split_whitespace().skip(1) {
+            if let Some(v) = tok.strip_prefix("scn=") {
+                name = v;
+            } else if let Some(v) = tok.strip_prefix("frames=") {
+                frames = v.parse().unwrap_or(0);
+            }
+        }
+        let scns = scenarios();
+        match scns.iter().find(|s| s.name == name) {
+            Some(scn) if frames > 0 => {
+                rep.eval();
+                if let Some(df) = rerun_check(scn, frames, None) {
+                    report_rerun(rep, scn, frames, &df);
+                }
+            }
+            _ => rep.notes.push("replay: malformed rerun case".into()),
+        }
+    } else if text.starts_with("load ") {
+        let mut m128 = false;
+        let mut kind = 0u8;
+        let mut cut = 0usize;
+        let mut deliv = None;
+        for tok in text.split_whitespace().skip(1) {
+            if let Some((k, v)) = tok.split_once('=') {
+                match k {
+                    "m128" => m128 = v == "1",
+                    "kind" => kind = v.parse().unwrap_or(0),
+                    "cut" => cut = v.parse().unwrap_or(0),
+                    "deliv" => deliv = Deliv::parse(v),
+                    _ => {}
+                }
+            }
+        }
+        match deliv {
+            Some(d) => loader_one(m128, kind, cut, &d, rep),
+            None => rep.notes.push("replay: malformed load case".into()),
+        }
     } else if text.starts_with("toy ") {
         if let Some(tc) = ToyCase::parse(text) {
             let out = toy_run(&tc, model);
@@ -689,6 +881,7 @@ pub fn run(o: &Opts) -> Report {
     let mut rng = Rng::new(o.seed);
     let t0 = std::time::Instant::now();
     small_checks(o, &mut rep, &mut rng, &mut model);
+    loader_checks(o, &mut rep, &mut rng);
     rep.extra.push(("wall_s_model_ties".into(), J::F(t0.elapsed().as_secs_f64())));
     metamorphic(o, &mut rep, &mut rng);
     let _ = std::fs::remove_dir("/tmp/determ");
